@@ -8,7 +8,7 @@ Two nodes on one exchange of one session, composed from the transliterated piece
 
 * node **A** (sender): its application sends messages number 0, 1, 2, … one after the other with
   `Exchange::send_with` (stop-and-wait: the next call starts when the previous one returned, the
-  application stops at the first failed call, and on an unsecured session it sends at most 17 messages);
+  application stops at the first failed call; any number of messages, on either session kind);
   `send`  = first `pre_send` of a new reliable message (`Session::pre_send` takes a new counter,
             `ReliableMessage::pre_send` creates the retransmission entry),
   `retx`  = `pre_send` again after the back-off (`RetransEntry::pre_send` counts the attempt),
@@ -60,6 +60,11 @@ structure Sys where
   app : List Nat := []
   -- network
   net : List Dg := []
+  /-- GHOST (history variable, not part of the implementation's state): some copy of a data message
+  was handed to B's stack although B's window had already moved more than `L` counters past it.
+  On a secure session such a copy is rejected; on an unsecured one it *is* the restart rule of the
+  receive window (`Dedup.PSpec.isRestart`): the copy is taken for a restarted peer and accepted. -/
+  late : Bool := false
 deriving Repr, Inhabited
 
 def init (a0 b0 : Nat) (enc : Bool := true) (sai : Option Nat := none) : Sys :=
@@ -80,9 +85,7 @@ def window (rx : RxState) (c : Nat) (enc : Bool) : RxState × Bool := Dedup.post
 
 /-- A's `Session::pre_send(Some(exchange), reliable)` for a *new* message: the counter it takes -/
 def Sys.sendStep (s : Sys) : Option Sys :=
-  -- (on an unsecured session the application sends at most `L + 1` messages: beyond that a copy
-  -- delayed past `L` newer counters is accepted again by the unsecured window, by specification)
-  if s.cur.isSome || !s.allOk || s.aMrp.retrans.isSome || !(s.enc || decide (s.next ≤ Dedup.L)) then none else
+  if s.cur.isSome || !s.allOk || s.aMrp.retrans.isSome then none else
   let c := s.aCtr
   let r := s.aMrp.preSend c true none s.sai
   match r.2.2 with
@@ -103,15 +106,20 @@ def Sys.resendStep (s : Sys) (wantGiveup : Bool) : Option Sys :=
     | some _ => none
   | _, _ => none
 
+/-- the copy `c` is *timely* for the window `rx`: not more than `L` counters behind the newest one
+accepted (the two window kinds decide alike exactly on timely counters) -/
+def timelyFor (rx : RxState) (c : Nat) : Bool := !rx.synced || decide (rx.max ≤ c + Dedup.L)
+
 /-- B's stack takes `data c i` from the network -/
 def Sys.recvData (s : Sys) (c i : Nat) : Sys :=
   let w := window s.bRx c s.enc
+  let late := s.late || !(s.enc || timelyFor s.bRx c)
   if !w.2 then
     -- `handle_rx_packet`: Duplicate ⇒ fresh stand-alone acknowledgement outside any exchange
-    { s with bRx := w.1, bCtr := s.bCtr + 1, net := Dg.ack s.bCtr c :: s.net }
+    { s with bRx := w.1, bCtr := s.bCtr + 1, net := Dg.ack s.bCtr c :: s.net, late := late }
   else
     -- `ReliableMessage::post_recv` (no acknowledgement field: cannot fail); the application logs it
-    { s with bRx := w.1, bMrp := (s.bMrp.postRecv c none true 0).1, app := i :: s.app }
+    { s with bRx := w.1, bMrp := (s.bMrp.postRecv c none true 0).1, app := i :: s.app, late := late }
 
 /-- B's application calls `acknowledge()`: a stand-alone acknowledgement if one is owed -/
 def Sys.ackStep (s : Sys) : Option Sys :=
